@@ -226,6 +226,7 @@ def step (line : String) : String :=
 structure DState where
   db : World.DB := {}
   tasks : List (String × World.Task) := []
+  saved : List (String × World.DB) := []
 
 def pad12 (n : Nat) : String :=
   let d := toString n
@@ -302,6 +303,12 @@ def showOutcome : World.Outcome → String
 def stepS (st : DState) (line : String) : DState × String :=
   match (line.splitOn " ").filter (· ≠ "") with
   | ["w-init"] => ({}, "ok")
+  | ["w-others", id] =>
+    -- digest of everything that does NOT belong to task `id` (frame check, C04)
+    match st.tasks.find? (·.1 == id) with
+    | some (_, t) =>
+      (st, dbDigest { cur := st.db.cur.filter (fun x => !World.mineC t x), rows := st.db.rows.filter (fun x => !World.mine t x) })
+    | none => (st, "bad-op")
   | ["w-task", id, src, ig, table, start, stop, batch, conc, deps] =>
     match start.toNat?, stop.toNat?, batch.toNat?, conc.toNat? with
     | some a, some b, some c, some d =>
@@ -325,7 +332,17 @@ def stepS (st : DState) (line : String) : DState × String :=
       let db := { st.db with cur := st.db.cur.filter keep }
       ({ st with db := db }, dbDigest db)
     | none => (st, "bad-op")
+  | ["w-cur", src, ig, num, hash] =>
+    -- a position recorded by an earlier run
+    match num.toNat? with
+    | some n => ({ st with db := { st.db with cur := st.db.cur ++ [{ src := src, ig := ig, num := n, hash := hash }] } }, "ok")
+    | none => (st, "bad-op")
   | ["w-db"] => (st, dbDigest st.db)
+  | ["w-save", name] => ({ st with saved := (name, st.db) :: st.saved.filter (·.1 != name) }, "ok")
+  | ["w-load", name] =>
+    match st.saved.find? (·.1 == name) with
+    | some (_, db) => ({ st with db := db }, "ok")
+    | none => (st, "bad-op")
   | ["w-proj", s, n, rows, want] =>
     -- oracle: the implementation's rows (blk:digest) are the projection of the canonical chain over (s, n]
     let parse (x : String) : List (Nat × String) := (splitList x ",").filterMap fun e =>
